@@ -152,10 +152,16 @@ fn run(def: &'static PropDef, tier: Tier) -> i32 {
     for (k, v) in &out.counters {
         println!("  {} = {}", k, v);
     }
-    if !out.machinery_errors.is_empty() {
-        for e in out.machinery_errors.iter().take(10) {
-            println!("MACHINERY: {}", e);
-        }
+    // Machinery problems (a worker that died where a crash is not a verdict, a schedule that
+    // could not be replayed, a case whose re-execution differed) are never verdicts. They do not
+    // cancel a violation that WAS recorded either: every recorded failure has been re-executed
+    // from scratch by its check before being recorded, so it stands on its own. Exit 1 if there
+    // is an unattributed violation, else exit 2 if there was a machinery problem.
+    let machinery = !out.machinery_errors.is_empty();
+    for e in out.machinery_errors.iter().take(10) {
+        println!("MACHINERY: {}", e);
+    }
+    if machinery && violations.is_empty() {
         return 2;
     }
     for (id, n) in &known_hits {
